@@ -49,9 +49,9 @@ func c01Model_cborDecodeInto(b []byte, v interface{}) error {
 // from 92 to 16347 and 3 bytes from 16348.
 var c01DataLens = []int{91, 92, 16347, 16348, 1, 4058, 2, 90, 93, 300, 16346, 16349}
 
-// header body lengths: varint 1 byte up to 127, 2 bytes from 128; 4057+2 bytes of header make the
+// header body lengths: varint 1 byte up to 127, 2 bytes from 128; 4093+2 bytes of header make the
 // first section start on the last byte of the 4096-byte read buffer.
-var c01HeaderLens = []int{59, 127, 128, 4057, 1, 200}
+var c01HeaderLens = []int{59, 128, 4093, 127, 1, 200}
 
 // C01.section — the real carreader.New and CarReader over a real bufio.Reader over a file: after
 // the header, for consecutive well-formed sections every Next* call returns the section's CID, its
